@@ -48,9 +48,11 @@ type FuncContract struct {
 	SafetyProps []string
 	FrameProps []string
 	Writes   *WritesClause
+	OMWrites *OMWritesClause
 	AllProps []string
 	Track    []string
 	PureCallbacks map[string]bool
+	Callbacks map[string]*CallbackSpec
 	Trusted  bool // contract is assumed, body not verified (listed as an assumption)
 	TrustedWhy string
 	File     string
@@ -98,6 +100,20 @@ func splitTopLevel(s string) []string {
 		}
 	}
 	return append(parts, s[last:])
+}
+
+// OMWritesClause: of the abstract object-model observers (and the Object field) of objects that
+// existed before the call, only the listed groups may change.
+type OMWritesClause struct {
+	Props  []string
+	Groups []string
+	Text   string
+}
+
+// CallbackSpec: what a function-valued parameter may write when it is called.
+type CallbackSpec struct {
+	WritesArg int      // -1: only fresh memory; k: additionally the footprint of its k-th argument
+	Extra     []string // parameters of the enclosing function whose footprint the callback may also write
 }
 
 type LetClause struct {
@@ -391,10 +407,43 @@ func parseContractFile(path, pkgPath string, preds map[string]*Pred) ([]*FuncCon
 				}
 			}
 			cur.Writes = wc
+		case "om-writes":
+			props, body := parseProps(rest)
+			cur.OMWrites = &OMWritesClause{Props: props, Groups: strings.Fields(strings.ReplaceAll(body, ",", " ")), Text: body}
 		case "frame":
 			cur.FrameProps = append(cur.FrameProps, strings.Fields(strings.ReplaceAll(rest, ",", " "))...)
 		case "track":
 			cur.Track = append(cur.Track, splitNames(rest)...)
+		case "callback":
+			// callback <name>: writes fresh | writes arg <k>
+			i := strings.Index(rest, ":")
+			if i < 0 {
+				return nil, fail(l, "callback needs ':'")
+			}
+			name := strings.TrimSpace(rest[:i])
+			spec := strings.Fields(strings.ReplaceAll(rest[i+1:], ",", " "))
+			cb := &CallbackSpec{WritesArg: -1}
+			if len(spec) < 2 || spec[0] != "writes" {
+				return nil, fail(l, "callback: expected 'writes fresh|arg <k>|<param> ...'")
+			}
+			for j := 1; j < len(spec); j++ {
+				switch {
+				case spec[j] == "fresh":
+				case spec[j] == "arg" && j+1 < len(spec):
+					k, err := strconv.Atoi(spec[j+1])
+					if err != nil {
+						return nil, fail(l, "callback: bad argument index")
+					}
+					cb.WritesArg = k
+					j++
+				default:
+					cb.Extra = append(cb.Extra, spec[j])
+				}
+			}
+			if cur.Callbacks == nil {
+				cur.Callbacks = map[string]*CallbackSpec{}
+			}
+			cur.Callbacks[name] = cb
 		case "pure-callback":
 			for _, n := range splitNames(rest) {
 				cur.PureCallbacks[n] = true
@@ -493,6 +542,9 @@ func parseContractFile(path, pkgPath string, preds map[string]*Pred) ([]*FuncCon
 		if c.Writes != nil {
 			add(c.Writes.Props)
 		}
+		if c.OMWrites != nil {
+			add(c.OMWrites.Props)
+		}
 		for p := range set {
 			c.AllProps = append(c.AllProps, p)
 		}
@@ -565,4 +617,34 @@ func exprString(e ast.Expr) string {
 		return strings.Trim(x.Value, `"`)
 	}
 	return fmt.Sprintf("%T", e)
+}
+
+// usesInternalNames: the expression mentions results of inner calls (bind call), loop binders or called()/count().
+func (c *FuncContract) usesInternalNames(ex ast.Expr) bool {
+	internal := map[string]bool{}
+	for _, ns := range c.BindCalls {
+		for _, n := range ns {
+			internal[n] = true
+		}
+	}
+	for _, ns := range c.Binds {
+		for _, n := range ns {
+			internal[n] = true
+		}
+	}
+	found := false
+	ast.Inspect(ex, func(n ast.Node) bool {
+		switch x := n.(type) {
+		case *ast.Ident:
+			if internal[x.Name] {
+				found = true
+			}
+		case *ast.CallExpr:
+			if id, ok := x.Fun.(*ast.Ident); ok && (id.Name == "called" || id.Name == "count") {
+				found = true
+			}
+		}
+		return !found
+	})
+	return found
 }
